@@ -317,6 +317,87 @@ func runC06(c *Ctx) {
 			}
 		})
 	}
+	// … and no decoded object is shared through package-level state: the read path neither files a message,
+	// AVP or group (or a container of them) under a package-level variable or map, nor hands out one it finds
+	// there — two messages that share a decoded object are not private copies
+	{
+		globalRoot := func(v ssa.Value) *ssa.Global {
+			for i := 0; i < 8; i++ {
+				switch x := v.(type) {
+				case *ssa.Global:
+					return x
+				case *ssa.FieldAddr:
+					v = x.X
+				case *ssa.IndexAddr:
+					v = x.X
+				case *ssa.Field:
+					v = x.X
+				case *ssa.UnOp:
+					v = x.X
+				default:
+					return nil
+				}
+			}
+			return nil
+		}
+		var holdsDecoded func(t types.Type, d int) bool
+		holdsDecoded = func(t types.Type, d int) bool {
+			if d > 4 {
+				return false
+			}
+			switch u := t.(type) {
+			case *types.Pointer:
+				return holdsDecoded(u.Elem(), d+1)
+			case *types.Named:
+				if u.Obj().Pkg() != nil && u.Obj().Pkg().Path() == pkgDiam {
+					switch u.Obj().Name() {
+					case "Message", "AVP", "GroupedAVP":
+						return true
+					}
+				}
+				return holdsDecoded(u.Underlying(), d+1)
+			case *types.Slice:
+				return holdsDecoded(u.Elem(), d+1)
+			case *types.Map:
+				return holdsDecoded(u.Elem(), d+1)
+			case *types.Interface:
+				return false
+			}
+			return false
+		}
+		shared := 0
+		var fs []*ssa.Function
+		for f := range rp {
+			fs = append(fs, f)
+		}
+		sort.Slice(fs, func(i, j int) bool { return fname(fs[i]) < fname(fs[j]) })
+		for _, f := range fs {
+			flow.Instrs(f, func(in ssa.Instruction) {
+				switch x := in.(type) {
+				case *ssa.MapUpdate:
+					if g := globalRoot(x.Map); g != nil && holdsDecoded(x.Value.Type(), 0) {
+						shared++
+						r.Fail("R4", fname(f)+":files-decoded-object-under-"+g.Name(), c.pos(x), "the read path files a decoded object under the package-level "+g.Name()+": a later message is handed the same object, so two retained messages change together")
+					}
+				case *ssa.Store:
+					if g := globalRoot(x.Addr); g != nil && holdsDecoded(x.Val.Type(), 0) {
+						shared++
+						r.Fail("R4", fname(f)+":files-decoded-object-under-"+g.Name(), c.pos(x), "the read path stores a decoded object into the package-level "+g.Name()+": a later message is handed the same object, so two retained messages change together")
+					}
+				case *ssa.Lookup:
+					if g := globalRoot(x.X); g != nil {
+						if mt, ok := x.X.Type().Underlying().(*types.Map); ok && holdsDecoded(mt.Elem(), 0) {
+							shared++
+							r.Fail("R4", fname(f)+":takes-decoded-object-from-"+g.Name(), c.pos(x), "the read path takes a decoded object out of the package-level "+g.Name()+": the message it goes into shares it with every other message that got it")
+						}
+					}
+				}
+			})
+		}
+		if shared == 0 {
+			r.Ok("R4", "ReadPath:no-decoded-object-in-package-state", "-", fmt.Sprintf("%d read-path functions neither file decoded objects under package-level state nor take them from there", len(fs)))
+		}
+	}
 	r.Ok("R4", "ReadPath:no-pool-reference-retained", "-", fmt.Sprintf("%d reference stores into Message/AVP/Header/package state on the read path, none pool-derived", nst))
 	// ---- R5: read-only API ----
 	c.c06ReadOnly()
@@ -516,6 +597,40 @@ func (c *Ctx) c06ReadOnly() {
 					}
 				}
 			case *ssa.Call:
+				// append(l[:0], …): an in-place filter writes the kept elements over the list it was handed — which
+				// can be the message's own AVP list (a walker returns it as it is for an empty path)
+				if b, ok := x.Call.Value.(*ssa.Builtin); ok && b.Name() == "append" && len(x.Call.Args) >= 1 {
+					var zeroOf func(v ssa.Value, d int) ssa.Value
+					zeroOf = func(v ssa.Value, d int) ssa.Value {
+						if d > 4 {
+							return nil
+						}
+						switch y := v.(type) {
+						case *ssa.Slice:
+							if k, isK := flow.ConstInt(y.High); y.High != nil && isK && k == 0 && isAVPSlice(y.X.Type()) {
+								return y.X
+							}
+						case *ssa.Phi:
+							for _, e := range y.Edges {
+								if e == ssa.Value(y) || e == ssa.Value(x) {
+									continue
+								}
+								if z := zeroOf(e, d+1); z != nil {
+									return z
+								}
+							}
+						}
+						return nil
+					}
+					if base := zeroOf(x.Call.Args[0], 0); base != nil {
+						_, isParam := flow.Peel(base).(*ssa.Parameter)
+						_, isList := listOf(base)
+						if isParam || isList {
+							bad++
+							r.Fail("R5", fmt.Sprintf("%s:append-into-handed-list", fname(f)), c.pos(x), "a write / serialise / inspect operation appends into l[:0] of an AVP list it was handed ("+short(base.String(), 30)+"): the kept elements overwrite that list's array — when it is the message's own AVP list, a retained decoded message loses and duplicates AVPs")
+						}
+					}
+				}
 				if b, ok := x.Call.Value.(*ssa.Builtin); ok && b.Name() == "copy" && len(x.Call.Args) == 2 {
 					if what, ok := listOf(x.Call.Args[0]); ok {
 						bad++
@@ -524,6 +639,93 @@ func (c *Ctx) c06ReadOnly() {
 				}
 			}
 		})
+	}
+	// Answer builds a new message from a request it only reads: no AVP object of the request goes into the answer
+	// (a shared *AVP is changed for both when either message is edited, and adding it to the answer may itself
+	// rewrite it)
+	if ans := c.P.Method("diam", "Message", "Answer"); ans != nil && len(ans.Params) > 0 {
+		req := ans.Params[0]
+		tainted := map[ssa.Value]bool{req: true}
+		for changed := true; changed; {
+			changed = false
+			flow.Instrs(ans, func(in ssa.Instruction) {
+				v, ok := in.(ssa.Value)
+				if !ok || tainted[v] {
+					return
+				}
+				from := false
+				switch x := in.(type) {
+				case *ssa.FieldAddr:
+					from = tainted[x.X]
+				case *ssa.Field:
+					from = tainted[x.X]
+				case *ssa.IndexAddr:
+					from = tainted[x.X]
+				case *ssa.Index:
+					from = tainted[x.X]
+				case *ssa.UnOp:
+					from = x.Op == token.MUL && tainted[x.X]
+				case *ssa.Slice:
+					from = tainted[x.X]
+				case *ssa.Extract:
+					from = tainted[x.Tuple]
+				case *ssa.Range:
+					from = tainted[x.X]
+				case *ssa.Next:
+					from = tainted[x.Iter]
+				case *ssa.Phi:
+					for _, e := range x.Edges {
+						from = from || tainted[e]
+					}
+				case *ssa.Call:
+					// a search of the request hands out the request's own AVP objects
+					if len(x.Call.Args) > 0 && tainted[x.Call.Args[0]] && !x.Call.IsInvoke() {
+						if g := flow.StaticCallee(x); g != nil && pkgOf(g) != nil && pkgOf(g).Path() == pkgDiam && strings.HasPrefix(g.Name(), "Find") {
+							from = true
+						}
+					}
+				}
+				if from {
+					tainted[v] = true
+					changed = true
+				}
+			})
+		}
+		isAVPish := func(t types.Type) bool {
+			if pt, ok := t.(*types.Pointer); ok && flow.TypeIs(pt.Elem(), pkgDiam, "AVP") {
+				return true
+			}
+			return isAVPSlice(t)
+		}
+		shares := 0
+		flow.Instrs(ans, func(in ssa.Instruction) {
+			switch x := in.(type) {
+			case *ssa.Call:
+				for i, a := range x.Call.Args {
+					if i == 0 && tainted[a] {
+						continue // a method of the request itself
+					}
+					if tainted[a] && isAVPish(a.Type()) && len(x.Call.Args) > 0 && !tainted[x.Call.Args[0]] {
+						if _, isB := x.Call.Value.(*ssa.Builtin); isB && x.Call.Value.Name() != "append" {
+							continue
+						}
+						shares++
+						r.Fail("R5", fname(ans)+":shares-no-avp-with-request", c.pos(x), "Answer hands an AVP object of the request ("+short(a.String(), 30)+") to "+calleeLabel(x)+": request and answer then share it — editing one changes the other, and adding it to the answer can already rewrite the request a handler kept")
+					}
+				}
+			case *ssa.Store:
+				if tainted[x.Val] && isAVPish(x.Val.Type()) && !tainted[x.Addr] {
+					shares++
+					r.Fail("R5", fname(ans)+":shares-no-avp-with-request", c.pos(x), "Answer stores an AVP object of the request into the answer: request and answer then share it")
+				}
+			}
+		})
+		if shares == 0 {
+			bad += 0
+			r.Ok("R5", fname(ans)+":shares-no-avp-with-request", c.fpos(ans), "no *AVP or AVP list taken from the request is handed to the answer under construction")
+		} else {
+			bad += shares
+		}
 	}
 	if bad == 0 {
 		r.Ok("R5", "read-only-api:no-stores", "-", fmt.Sprintf("%d functions reachable from %d read-only API methods; %d stores to Message/Header/AVP fields, none into a caller-supplied object", len(cl), len(roots), n))
